@@ -268,6 +268,16 @@ def step (line : String) : String :=
       let r : Reg Nat Nat := Reg.combine ms
       sepList "," (r.map (fun e => s!"{e.1}:{e.2}"))
     | none => "bad-op"
+  | ["DKEY", exts, names] =>
+    -- `_key` of each name: `n…` codes, or `-` for "not a plasmid file"
+    let parseName := fun (n : String) =>
+      if n.startsWith "n" then ((n.drop 1).toString.splitOn "," |>.filter (· != "")).mapM String.toNat? else none
+    match (splitList ";" exts).mapM parseName, (splitList ";" names).mapM parseName with
+    | some xs, some ns =>
+      sepList ";" (ns.map (fun n => match Dir.key xs n with
+        | some k => "n" ++ ",".intercalate (k.map toString)
+        | none => "-"))
+    | _, _ => "bad-op"
   | ["DIR", ci, exts, entries, probes] =>
     -- names are `n` followed by comma-separated character codes; entries `name:1` (regular file) / `name:0`
     let parseName := fun (n : String) =>
